@@ -60,3 +60,7 @@ SPEC = dict(
         "the two symbols of each relational atom take real numeric values (so Lt(x,y) and Le(y,x) are complementary)",
     ],
 )
+
+SPEC.setdefault("level_text", "Lean theorems (19, for all formulas, valuations and nestings) over the executable model of and_or, logical_not/xor/nand/nor/xnor, "
+    "piecewise pruning and the FiniteSet-domain rule: every constructor result has the truth value of the textbook connective and satisfies "
+    "is_canonical; tied to /repo by differential correspondence each run plus an independent truth-table oracle on the real objects.")
